@@ -8,8 +8,9 @@
 State lives in /verif/work/mutsweep/ (scratch worktrees under /tmp, removed after use).  A survivor that no corpus
 reports is either an equivalent mutant or a blind spot: triage by hand (results.json)."""
 import sys, os, re, json, random, subprocess, shutil, hashlib
-ROOT = '/verif/work/mutsweep'
-FILES = ['src/api.rs', 'src/muxer/mp4.rs', 'src/fragmented.rs', 'src/codec/h264.rs', 'src/codec/h265.rs', 'src/codec/av1.rs', 'src/codec/vp9.rs',
+ROOT = os.environ.get('MSW_ROOT', '/verif/work/mutsweep')
+TAG = os.environ.get('MSW_TAG', '')
+FILES = os.environ['MSW_FILES'].split(',') if os.environ.get('MSW_FILES') else ['src/api.rs', 'src/muxer/mp4.rs', 'src/fragmented.rs', 'src/codec/h264.rs', 'src/codec/h265.rs', 'src/codec/av1.rs', 'src/codec/vp9.rs',
          'src/codec/opus.rs', 'src/codec/common.rs', 'src/validation.rs', 'src/bin/muxide.rs']
 RULES = [(r' < ', ' <= '), (r' <= ', ' < '), (r' > ', ' >= '), (r' >= ', ' > '), (r' == ', ' != '), (r' != ', ' == '),
          (r' \+ ', ' - '), (r' - ', ' + '), (r' && ', ' || '), (r' \|\| ', ' && '), (r' \+ 1\b', ' + 2'), (r' - 1\b', ' - 0'),
@@ -94,11 +95,11 @@ def main():
             slot, m = args
             if m['id'] in res:
                 return
-            wt = '/tmp/msw_%d_%s' % (slot, m['id'])
+            wt = '/tmp/msw%s_%d_%s' % (TAG, slot, m['id'])
             sh('rm -rf %s; git -C /repo worktree prune; git -C /repo worktree add -q --detach %s HEAD' % (wt, wt))
             try:
                 apply(wt, m)
-                r = sh('cd %s && CARGO_TARGET_DIR=/tmp/msw_target_%d timeout 900 cargo test --workspace --no-fail-fast --offline 2>&1 | grep -E "^test result|error(\\[|:)|FAILED" | head -40' % (wt, slot))
+                r = sh('cd %s && CARGO_TARGET_DIR=/tmp/msw%s_target_%d timeout 900 cargo test --workspace --no-fail-fast --offline 2>&1 | grep -E "^test result|error(\\[|:)|FAILED" | head -40' % (wt, TAG, slot))
                 out = r.stdout
                 failed = sum(int(x) for x in re.findall(r'(\d+) failed', out))
                 built = 'test result' in out
@@ -119,7 +120,7 @@ def main():
         with ThreadPoolExecutor(jobs) as ex:
             list(ex.map(run_slot, range(jobs)))
         for s in range(jobs):
-            shutil.rmtree('/tmp/msw_target_%d' % s, ignore_errors=True)
+            shutil.rmtree('/tmp/msw%s_target_%d' % (TAG, s), ignore_errors=True)
         print({k: list(res.values()).count(k) for k in set(res.values())})
     elif cmd == 'hunt':
         sample = {m['id']: m for m in json.load(open(os.path.join(ROOT, 'sample.json')))['sample']}
@@ -137,7 +138,7 @@ def main():
             if st != 'survived' or mid in res:
                 continue
             m = sample[mid]
-            S = '/tmp/msw_hunt'
+            S = '/tmp/msw_hunt' + TAG
             sh('rm -rf %s; mkdir -p %s; git -C /repo worktree prune; git -C /repo worktree add -q --detach %s/repo HEAD' % (S, S, S))
             apply(S + '/repo', m)
             sh("rsync -a --exclude work --exclude 'harness/target' --exclude .git --exclude evidence /verif/ %s/verif/" % S)
